@@ -967,6 +967,9 @@ func (u *Unit) havocModifies(st, pre *State, env map[string]Value, c *Clause) {
 			i := strings.LastIndex(tf, ".")
 			pref := "F:" + tf[:i] + ":" + tf[i+1:]
 			u.havocHeap(st, func(k string) bool { return k == pref || strings.HasPrefix(k, pref+".") || strings.HasPrefix(k, pref+"[") })
+		case strings.HasPrefix(item, "maps(") && strings.HasSuffix(item, ")"):
+			mk := mapsKey(item)
+			u.havocHeap(st, func(k string) bool { return k == "MD:"+mk || strings.HasPrefix(k, "MV:"+mk+":") })
 		case strings.HasPrefix(item, "mem(") && strings.HasSuffix(item, ")"):
 			ex, err := ParseSpec(item[4 : len(item)-1])
 			if err != nil {
@@ -1009,6 +1012,11 @@ func (u *Unit) havocModifies(st, pre *State, env map[string]Value, c *Clause) {
 			u.store(st, lv, nv)
 		}
 	}
+}
+
+// mapsKey: "maps(map[K]V)" names every Go map of that type (type key as printed by typeKey).
+func mapsKey(item string) string {
+	return strings.TrimSuffix(strings.TrimPrefix(item, "maps("), ")")
 }
 
 func splitTopCommas(s string) []string {
@@ -1140,6 +1148,8 @@ func (u *Unit) callMods(call *ast.CallExpr, m *modSet) {
 						tf := item[5 : len(item)-1]
 						i := strings.LastIndex(tf, ".")
 						m.keys = append(m.keys, "F:"+tf[:i]+":"+tf[i+1:])
+					case strings.HasPrefix(item, "maps("):
+						m.keys = append(m.keys, "MD:"+mapsKey(item), "MV:"+mapsKey(item)+":")
 					default:
 						// a concrete location: over-approximate by its field / element class
 						ks := u.modItemKeys(origin, fc, item)
